@@ -152,49 +152,31 @@ def init_facts(cx, cls):
 
 
 def decode_list_spans(cx, cls):
-    """`self.X = []` then `for i in range(a, b, s): self.X.append(..)` (one append per iteration)
-    => {X: (b - a, s)} meaning len(X) = ceil((b-a)/s)."""
-    dec = cx.idx.find_method(cls, 'decode')
-    if dec is None:
+    """From the reader summary of decode(): for every list attribute that is reset and then grown by one
+    append per iteration of a range loop: {attr: (span Poly over self.<attr> atoms, step)} meaning
+    len(attr) = ceil(span / step)."""
+    from .declayout import summarise_decode
+    import re
+    fn, s = summarise_decode(cx, cls)
+    if fn is None:
         return {}
-    nz = cx.nz(dec.mod, cls)
-    out, fresh = {}, set()
-    for s in dec.node.body:
-        if isinstance(s, ast.Assign) and len(s.targets) == 1:
-            t = s.targets[0]
-            pairs = []
-            if isinstance(t, ast.Tuple) and isinstance(s.value, ast.Tuple) and len(t.elts) == len(s.value.elts):
-                pairs = list(zip(t.elts, s.value.elts))
-            else:
-                pairs = [(t, s.value)]
-            for a, b in pairs:
-                if isinstance(a, ast.Attribute) and U(a.value) == 'self':
-                    out.pop(a.attr, None)
-                    fresh.discard(a.attr)
-                    if isinstance(b, ast.List) and not b.elts:
-                        fresh.add(a.attr)
-        elif isinstance(s, ast.For) and isinstance(s.iter, ast.Call) and callee_name(s.iter) == 'range' and not s.orelse:
-            args = s.iter.args
-            try:
-                if len(args) == 1:
-                    a, b, st = Poly.const(0), nz.norm(args[0]), 1
-                elif len(args) == 2:
-                    a, b, st = nz.norm(args[0]), nz.norm(args[1]), 1
-                else:
-                    a, b, st = nz.norm(args[0]), nz.norm(args[1]), nz.norm(args[2]).const_value()
-            except NotInt:
+    # read id -> 'self.attr' for attributes assigned exactly that read
+    rid2attr = {}
+    for attr, vals in s.assigns.items():
+        for v, lp in vals:
+            if re.match(r'^R\d+$', v) and lp is None:
+                rid2attr[v] = 'self.' + attr
+    out = {}
+    for lp in s.loops:
+        if lp.kind != 'range' or lp.start is None or lp.stop is None or not lp.step:
+            continue
+        apps = [a for a in s.appends if a[2] == lp.lid and not a[3]]
+        attrs = set(a[0] for a in apps)
+        for attr in attrs:
+            if len([a for a in apps if a[0] == attr]) != 1 or not s.fresh.get(attr):
                 continue
-            apps = [n for n in ast.walk(s) if isinstance(n, ast.Call) and callee_name(n) == 'append'
-                    and isinstance(n.func, ast.Attribute) and isinstance(n.func.value, ast.Attribute)
-                    and U(n.func.value.value) == 'self']
-            direct = [b2.value for b2 in s.body if isinstance(b2, ast.Expr)]
-            has_exit = any(isinstance(n, (ast.Break, ast.Continue, ast.Return)) for n in ast.walk(s))
-            for ap in apps:
-                attr = ap.func.value.attr
-                if ap in direct and not has_exit and st and st > 0 and attr in fresh and \
-                        len([x for x in apps if x.func.value.attr == attr]) == 1:
-                    out[attr] = (b - a, st)
-                    fresh.discard(attr)
-                else:
-                    out.pop(attr, None)
+            span = (lp.stop - lp.start).subst({r: Poly.atom(a) for r, a in rid2attr.items()})
+            step = lp.step
+            # index loops (step 1 over element index) : span counts elements
+            out[attr] = (span, step)
     return out
